@@ -1,6 +1,6 @@
 (* C11 - CBOR decoding implements RFC 8949 well-formedness and values.
    Only statements closed by [exact]; proofs are in Cbor/DecodeProofs.v and Cbor/Float.v. *)
-From Cddl Require Import Base.Bytes Base.Utf8 Cbor.Wire Cbor.Wf Cbor.DecodeProofs Cbor.Float.
+From Cddl Require Import Base.Bytes Base.Utf8 Cbor.Wire Cbor.Wf Cbor.DecodeProofs Cbor.Float Cbor.Float32.
 Open Scope N_scope.
 
 (* the decoder model returns a value exactly when the bytes begin with a well-formed item *)
@@ -30,6 +30,11 @@ Proof. exact encoding_independent. Qed.
 (* binary16 -> binary64 widening is exact on all 65536 patterns *)
 Theorem C11_widen16_exact : forall x, x < 65536 -> widen16_ok x = true.
 Proof. exact widen16_exact. Qed.
+
+(* binary32 -> binary64 widening is exact on all 2^32 patterns (symbolic proof: zeros, subnormals via log2,
+   normals, infinities, NaNs): same class, same sign, same value *)
+Theorem C11_widen32_exact : forall x, x < 2 ^ 32 -> widen32_ok x = true.
+Proof. exact widen32_exact. Qed.
 
 (* known finding: the crate's Value cannot tell undefined (simple 23) from null (simple 22) *)
 Theorem C11_to_value_injective_refuted : exists x x', x <> x' /\ to_value x = to_value x'.
